@@ -90,6 +90,28 @@ func main() {
 	h.Main()
 }
 
+// preRunCycleBinds runs a directed cycle case once in the generator: did a bind (the antecedent of
+// law 101) occur?  Cases without one are negative controls: kind suffix /directed-negative, not counted
+// as non-trivial.
+func preRunCycleBinds(spec sched.CycleSpec) int {
+	cw := sched.NewCycleWorld(spec)
+	cw.RunActions()
+	n := 0
+	for _, e := range cw.Trace {
+		if e.Kind == 2 {
+			n++
+		}
+	}
+	return n
+}
+
+func negTag(nb int) string {
+	if nb == 0 {
+		return "/directed-negative"
+	}
+	return ""
+}
+
 func countAllocate(acts []int64) int {
 	k := 0
 	for _, a := range acts {
@@ -288,7 +310,8 @@ func genF10(rng *vh.Rng, n int, emit func(id string, sel int, in []int64, kind s
 		if i%3 == 2 {
 			spec := specPipelinedOnly(int64(r.Range(1, 2)), int64(r.Range(2, 4)))
 			spec.Actions = vh.Pick(r, [][]int64{{1}, {1, 2}, {2, 1}})
-			emit(fmt.Sprintf("f10-%d", i), 1, spec.Enc(sched.EpsUnits), fmt.Sprintf("f10/pipelined-only/actions=%v", spec.Actions), true,
+			nb := preRunCycleBinds(spec)
+			emit(fmt.Sprintf("f10-%d", i), 1, spec.Enc(sched.EpsUnits), fmt.Sprintf("f10/pipelined-only%s/actions=%v", negTag(nb), spec.Actions), nb > 0,
 				map[string]any{"directed": "pipelined-only gang must stay unbound", "actions": spec.Actions})
 			continue
 		}
@@ -308,7 +331,8 @@ func genF10(rng *vh.Rng, n int, emit func(id string, sel int, in []int64, kind s
 		}
 		spec.Actions = acts
 		kind := fmt.Sprintf("f10/actions=%v", acts)
-		emit(fmt.Sprintf("f10-%d", i), 1, spec.Enc(sched.EpsUnits), kind, true,
+		nb := preRunCycleBinds(spec)
+		emit(fmt.Sprintf("f10-%d", i), 1, spec.Enc(sched.EpsUnits), kind+negTag(nb), nb > 0,
 			map[string]any{"directed": "kept statement then second allocate", "actions": acts})
 	}
 }
@@ -430,12 +454,14 @@ func genRoles(rng *vh.Rng, n int, emit func(id string, sel int, in []int64, kind
 				in = append(in, o[0], o[1])
 			}
 			in = append(in, spec.Enc(sched.EpsUnits)...)
-			emit(fmt.Sprintf("roles-%d", i), 5, in, fmt.Sprintf("roles/pg-update/%s/actions=%v", names[variant], spec.Actions), true,
+			nb := preRunCycleBinds(spec)
+			emit(fmt.Sprintf("roles-%d", i), 5, in, fmt.Sprintf("roles/pg-update/%s%s/actions=%v", names[variant], negTag(nb), spec.Actions), nb > 0,
 				map[string]any{"directed": "PodGroup update (minTaskMember redistributed) then short role only pipelined: " + names[variant],
 					"min": spec.Jobs[1].Min, "roleMin": spec.Jobs[1].RoleMin, "oldRoleMin": old})
 			continue
 		}
-		emit(fmt.Sprintf("roles-%d", i), 1, spec.Enc(sched.EpsUnits), fmt.Sprintf("roles/%s/actions=%v", names[variant], spec.Actions), true,
+		nb := preRunCycleBinds(spec)
+		emit(fmt.Sprintf("roles-%d", i), 1, spec.Enc(sched.EpsUnits), fmt.Sprintf("roles/%s%s/actions=%v", names[variant], negTag(nb), spec.Actions), nb > 0,
 			map[string]any{"directed": "short role only pipelined: " + names[variant], "min": spec.Jobs[1].Min, "roleMin": spec.Jobs[1].RoleMin,
 				"tasks": len(spec.Tasks), "nodes": len(spec.Nodes)})
 	}
